@@ -117,3 +117,104 @@ def valid_s(rng):
     while True:
         s=rng.randrange(q)
         if not neg(s) and decode(s) is not None: return s
+
+# ------------------------------------------------------------------------------------------------
+# crafting inputs whose *inner* square-root argument has a prescribed 2-primary component
+# (polynomial root finding mod q: x^q mod f, gcd, equal-degree splitting)
+NADIC = 47
+MODD = (q - 1) >> NADIC
+GSYL = pow(zeta, MODD, q)          # generator of the 2-Sylow subgroup, as the Sarkar routine uses it
+
+def _trim(p):
+    while p and p[-1] == 0: p.pop()
+    return p
+def _pmul(a, b):
+    if not a or not b: return []
+    res = [0] * (len(a) + len(b) - 1)
+    for i, x in enumerate(a):
+        if x:
+            for j, y in enumerate(b):
+                res[i + j] = (res[i + j] + x * y) % q
+    return res
+def _pdivmod(a, f):
+    a = _trim(a[:]); df = len(f) - 1; il = inv(f[-1]); quo = [0] * max(0, len(a) - df)
+    while a and len(a) - 1 >= df:
+        c = a[-1] * il % q; sh = len(a) - 1 - df; quo[sh] = c
+        for i in range(len(f)): a[sh + i] = (a[sh + i] - c * f[i]) % q
+        _trim(a)
+    return _trim(quo), a
+def _pmod(a, f): return _pdivmod(a, f)[1]
+def _ppow(b, e, f):
+    res = [1]; b = _pmod(b, f)
+    while e:
+        if e & 1: res = _pmod(_pmul(res, b), f)
+        b = _pmod(_pmul(b, b), f); e >>= 1
+    return res
+def _psub(a, b):
+    n = max(len(a), len(b)); res = [0] * n
+    for i, x in enumerate(a): res[i] = x
+    for i, y in enumerate(b): res[i] = (res[i] - y) % q
+    return _trim(res)
+def _pgcd(a, b):
+    a = _trim(a[:]); b = _trim(b[:])
+    while b: a, b = b, _pmod(a, b)
+    if not a: return a
+    il = inv(a[-1]); return [c * il % q for c in a]
+def poly_roots(f, rng):
+    """all roots in Fq of the polynomial f (coefficients low -> high)"""
+    f = _trim([c % q for c in f])
+    if len(f) <= 1: return []
+    h = _ppow([0, 1], q, f)
+    g = _pgcd(f, _psub(h, [0, 1]))
+    out = []
+    def split(p):
+        if len(p) <= 1: return
+        if len(p) == 2:
+            out.append((-p[0]) * inv(p[1]) % q); return
+        for _ in range(200):
+            a = rng.randrange(q)
+            hh = _psub(_ppow([a, 1], (q - 1) // 2, p), [1])
+            dd = _pgcd(p, hh) if hh else p
+            if dd and 1 < len(dd) < len(p):
+                split(dd); split(_pdivmod(p, dd)[0]); return
+    split(g)
+    return out
+
+def two_primary_exp_target(e, rng):
+    """a field element X with X^MODD = GSYL^e, i.e. with 2-primary discrete log e (mod 2^47)"""
+    # X = GSYL^(e * MODD^{-1} mod 2^47) * y^(2^47)
+    ee = e * pow(MODD, -1, 1 << NADIC) % (1 << NADIC)
+    return pow(GSYL, ee, q) * pow(rng.randrange(1, q), 1 << NADIC, q) % q
+
+def craft_elligator_r0(X, rng):
+    """r0 with num(r)*den(r) = X for r = zeta*r0^2, or None"""
+    K = (A - 2 * D) % q
+    base = _pmul(_pmul([K, K], [(-(D - A)) % q, D % q]), [(-D) % q, (D - A) % q])
+    f = base[:]; f[0] = (f[0] - X) % q
+    for rr in poly_roots(f, rng):
+        rz = rr * inv(zeta) % q
+        if rz == 0 or leg(rz) == 1:
+            return sqrt(rz)
+    return None
+
+def craft_decode_s(X, rng):
+    """nonnegative s with u_2 * u_1^2 = X (the argument of the square root in decoding), or None"""
+    # u1 = 1 - s^2, u2 = u1^2 - 4 d s^2 ; in S = s^2:  ((1-S)^2 - 4 d S) (1-S)^2 - X = 0  (quartic in S)
+    oneS = [1, q - 1]
+    u1sq = _pmul(oneS, oneS)
+    u2 = _psub(u1sq, [0, 4 * D % q])
+    f = _pmul(u2, u1sq); f[0] = (f[0] - X) % q
+    for S in poly_roots(f, rng):
+        if S == 0 or leg(S) == 1:
+            s = sqrt(S)
+            return absq(s)
+    return None
+
+def craft(kind, e, rng, tries=12):
+    """input of `kind` ('ell' -> r0, 'dec' -> s) whose inner sqrt ratio has 2-primary discrete log e"""
+    for _ in range(tries):
+        X = two_primary_exp_target(e, rng)
+        v = craft_elligator_r0(inv(X), rng) if kind == 'ell' else craft_decode_s(inv(X), rng)
+        if v is not None:
+            return v
+    return None
